@@ -103,10 +103,15 @@ class Concrete(object):
             v0 = vals[0]
             twin = {0: v0, 1: (float(v0) if isinstance(v0, int) else v0), 2: (True if v0 == 1 else v0)}[self.variant.get("dupkind", 0)]
             items[0] = (nm, vals + [twin])
-        if self.cfg["overlap"]:
+        if self.cfg["overlap"] and self.variant.get("scalar_overlap"):
+            # the overlapping argument's grid value given as a bare scalar
+            items.append((self.case_names[0], self.case_vals[self.case_names[0]][0]))
+        elif self.cfg["overlap"]:
             items.append((self.case_names[0], list(self.case_vals[self.case_names[0]][:2])))
         if not items:
             return None
+        if self.cfg["overlap"] and self.variant.get("scalar_overlap"):
+            spelling = "dict"          # (the other spellings wrap every value list)
         if spelling == "iter":
             # values given as single-pass iterables (generator / iterator objects)
             return {k: (x for x in v) if i % 2 == 0 else iter(v) for i, (k, v) in enumerate(items)}
@@ -175,6 +180,8 @@ def make_result(i, kind):
         return (float(i), float(2 * i))
     if kind == "array":
         return np.array([float(i), i + 0.5])
+    if kind == "array1":
+        return np.array([float(i)])            # an array that happens to hold one element stays an array
     if kind == "list2d":
         return [[float(i), 0.0], [1.0, float(-i)]]
     if kind == "str":
@@ -221,6 +228,11 @@ def project_leaf(x, kind, comp=None):
             if a[1] != a[0] + 0.5:
                 return None, "inconsistent array %r" % (x,)
             return int(a[0]), None
+        if kind == "array1":
+            if not isinstance(x, np.ndarray) or x.shape != (1,):
+                return None, "the one-element array result came back as %r" % (x,)
+            v = float(x[0])
+            return (0 if math.isnan(v) else int(v)), None
         if kind == "list2d":
             a = np.asarray([[np.asarray(v, dtype=float) for v in row] for row in x], dtype=float)
             if a.shape != (2, 2):
@@ -830,7 +842,7 @@ def check_df(case, conc, variant, df):
 
 # -- drivers for C01 / C02 / C03 ---------------------------------------------------
 
-RESULT_KINDS_GRID = ["scalar", "tuple2", "array", "int", "list2d"]
+RESULT_KINDS_GRID = ["scalar", "tuple2", "array", "int", "list2d", "array1"]
 RESULT_KINDS_CASES = ["scalar", "tuple2", "array", "str", "strbool", "list2d", "bool"]
 EXEC_STYLES = ["submit", "apply", "mppool"]
 VALUE_FLAVOURS = ["int", "float", "str", "mixed", "hetero", "hetero_str"]
@@ -846,7 +858,7 @@ def variants_for(case, idx, prop, n_variants):
                  exec=EXEC_STYLES[(k + j) % 3], seed=[True, 3, 11][(k + j) % 3],
                  cases_as_dict=(k % 2 == 0), noshuffle=[False, 0][(k // 3) % 2], case_key_order=(k % 3 == 1),
                  dupkind=k % 3, decoy=(k % 2 == 1), bare_cases=(k % 4 < 2), infer_fn_args=(k % 5 < 2),
-                 grid_order=[None, "desc", None, "rot"][(k + j) % 4], sig_perm=(k % 2 == 1))
+                 grid_order=[None, "desc", None, "rot"][(k + j) % 4], sig_perm=(k % 2 == 1), scalar_overlap=((k // 7) % 2 == 1))
         # numbers next to strings: positional outputs only (a Dataset coordinate would turn them all into strings); the
         # union of such case values has no defined order, so a nested case output is then compared as a multiset
         ok_hs = (not cfg.get("dup")) and cfg["kind"] in ("nested", "flat")
@@ -999,7 +1011,7 @@ def record_real_runs(seed, count):
     rnd = _random.Random(seed)
     shapes = [[2, 2], [3], [4], [2, 3], [1, 3], [2, 1, 2]]
     traces = []
-    kinds = ["seq_shuffle", "threadpool", "mp_threadpool", "seq_shuffle", "threadpool", "loky"]
+    kinds = ["seq_shuffle", "threadpool", "mp_threadpool", "seq_shuffle", "threadpool", "loky", "threadpool2_many"]
     # the caller's pools: created once and handed to every sweep of that kind (they stay the caller's)
     shared_tp = cf.ThreadPoolExecutor(3)
     shared_mp = mpp.ThreadPool(3)
@@ -1021,7 +1033,10 @@ def _record_real_runs(rnd, count, shapes, kinds, shared_tp, shared_mp, cr):
         grid = shapes[t % len(shapes)]
         kind = kinds[t % len(kinds)]
         n = math.prod(grid)
-        if kind == "loky" and (t // len(kinds)) % 2 == 1:
+        if kind == "threadpool2_many":
+            grid = [9, 9]              # 81 settings on a two-worker pool (not a multiple of any task chunking)
+            n = 81
+        elif kind == "loky" and (t // len(kinds)) % 2 == 1:
             # the built-in process pool with more settings than 4 x workers, not a multiple of it
             grid = [[3, 3], [5, 3]][(t // (2 * len(kinds))) % 2]
             n = math.prod(grid)
@@ -1055,6 +1070,11 @@ def _record_real_runs(rnd, count, shapes, kinds, shared_tp, shared_mp, cr):
                 res = cr.combo_runner(fn, combos, shuffle=shuffle, executor=shared_tp, **opts)
             elif kind == "mp_threadpool":
                 res = cr.combo_runner(fn, combos, executor=shared_mp, **opts)
+            elif kind == "threadpool2_many":
+                import concurrent.futures as _cf
+                shuffle = rnd.choice([False, 5])
+                with _cf.ThreadPoolExecutor(2) as _pool2:
+                    res = cr.combo_runner(fn, combos, shuffle=shuffle, executor=_pool2, **opts)
             else:
                 d = tempfile.mkdtemp(prefix="vx-loky-", dir=common.scratch("loky"))
                 logp = os.path.join(d, "calls.log")
@@ -1066,20 +1086,25 @@ def _record_real_runs(rnd, count, shapes, kinds, shared_tp, shared_mp, cr):
                         calls.append(tok[float(sum(v * (100 ** j) for j, v in enumerate(vals)))])
         except Exception as e:  # noqa
             error = "%s: %s" % (type(e).__name__, str(e)[:200])
+        def _id(x):
+            try:
+                return tok.get(float(x), -1)
+            except Exception:  # noqa   (None, an array, ...: not a value the function returned)
+                return -1
         if error is not None:
             out = [-1]
         elif flat:
-            out = [tok.get(float(x), -1) for x in res]
+            out = [_id(x) for x in res]
         else:
             leaves, prob = flatten_nested(res, grid)
-            out = [tok.get(float(x), -1) for x in leaves] if not prob else [-1]
-        if kind == "loky" and n > 4:
+            out = [_id(x) for x in leaves] if not prob else [-1]
+        if kind in ("loky", "threadpool2_many") and n > 4:
             # many settings on a process pool: the order of the calls is not constrained by the property, so the log is
             # validated as a multiset (sorted, against the sequential model) - the interleaving search of the pool model
             # is exponential in the number of settings
             cfg = mk(grid, shuffle=False, pool=False, kind="flat" if flat else "nested")
             calls = sorted(calls)
-            kind = "loky_many"
+            kind = "loky_many" if kind == "loky" else kind
         else:
             cfg = mk(grid, shuffle=bool(shuffle), pool=(kind != "seq_shuffle"), kind="flat" if flat else "nested")
         traces.append(dict(cfg=cfg, calls=list(calls), out=out, rejected=False, how=kind, shuffle=repr(shuffle), error=error))
